@@ -14,7 +14,7 @@ ROT  rotate_left / rotate_right / flip_color are straight-line heap transformati
      stored back, root blackened, no return between a descent and the way-up repairs) are the other structural necessary
      conditions and are run alongside.  Validity of every reachable tree is NOT decided.
 """
-from .frontend import walk, children, strip, strip_parens, AnalysisBroken
+from .frontend import walk, children, strip, strip_parens, AnalysisBroken, qtype
 from .expr import canon, int_value, var_init, is_null
 
 UNIT = 'src/containers/qtreetbl.c'
@@ -50,7 +50,8 @@ class SymHeap:
     def ev(self, e, env):
         e = strip_parens(strip(e))
         k = e.get('kind')
-        if is_null(e):
+        v0 = int_value(e)
+        if is_null(e) and not (isinstance(v0, int) and not (qtype(e) or '').rstrip().endswith('*')):
             return ('null',)
         v = int_value(e)
         if isinstance(v, int):
@@ -62,6 +63,24 @@ class SymHeap:
             raise NotStraight('unknown variable %s' % nm)
         if k == 'MemberExpr':
             return self.read(self.ev(children(e)[0], env), e.get('name'))
+        if k == 'UnaryOperator' and e.get('opcode') == '&':
+            t = strip_parens(strip(children(e)[0]))
+            if t.get('kind') == 'MemberExpr':
+                base = self.ev(children(t)[0], env)
+                if base[0] != 'node':
+                    raise NotStraight('address of a field of %r' % (base,))
+                return ('ref', base[1], t.get('name'))          # pointer to a link field
+            raise NotStraight('address-of %s' % canon(t)[:30])
+        if k == 'UnaryOperator' and e.get('opcode') == '*':
+            r = self.ev(children(e)[0], env)
+            if r[0] == 'ref':
+                return self.read(('node', r[1]), r[2])
+            raise NotStraight('dereference of %r' % (r,))
+        if k == 'ConditionalOperator':
+            c = self.ev(children(e)[0], env)
+            if c[0] == 'bool':
+                return self.ev(children(e)[1 if c[1] else 2], env)
+            raise NotStraight('conditional expression on a non-constant')
         if k == 'UnaryOperator' and e.get('opcode') == '!':
             a = self.ev(children(e)[0], env)
             if a[0] == 'bool':
@@ -71,8 +90,6 @@ class SymHeap:
             return ('not', a)
         if k == 'CallExpr':
             return self.call(e, env)
-        if k == 'ConditionalOperator':
-            raise NotStraight('conditional expression')
         raise NotStraight('expression %s' % canon(e)[:40])
 
     def call(self, e, env):
@@ -142,7 +159,12 @@ class SymHeap:
         if k == 'BinaryOperator' and e.get('opcode') == '=':
             val = self.ev(children(e)[1], env)
             l = strip_parens(strip(children(e)[0]))
-            if l.get('kind') == 'MemberExpr':
+            if l.get('kind') == 'UnaryOperator' and l.get('opcode') == '*':
+                r = self.ev(children(l)[0], env)
+                if r[0] != 'ref':
+                    raise NotStraight('store through %r' % (r,))
+                self.write(('node', r[1]), r[2], val)
+            elif l.get('kind') == 'MemberExpr':
                 self.write(self.ev(children(l)[0], env), l.get('name'), val)
             elif l.get('kind') == 'DeclRefExpr' and canon(l) in env:
                 env[canon(l)] = val
